@@ -2,6 +2,7 @@ package blockstore
 
 import (
 	"context"
+	"runtime"
 	"sync"
 	"sync/atomic"
 	"time"
@@ -72,13 +73,50 @@ func zz2Bytes(name string, n int) []byte {
 	return out
 }
 
-// zz2Spin is the native start barrier (absent under the engine, whose scheduler needs no help).
-func zz2Spin(b *int32) {
+// zz2Overlap runs `op` concurrently with `other`.
+// Under the engine: two goroutines, op once; the exploring scheduler supplies the interleavings.
+// Natively the Go scheduler cannot be told where to switch, so the harness makes the asynchronous pre-emption
+// of the Go runtime do the sampling: on ONE processor (GOMAXPROCS=1) the op goroutine repeats op back to back
+// (until it returns false or `other` has finished) while the `other` goroutine waits in the run queue; the
+// runtime pre-empts the spinning goroutine after its 10 ms slice at whatever instruction it happens to be, and
+// `other` then runs to completion inside that instruction gap. One call = one sample of the gap position;
+// zz2Repeat supplies the repetitions. Insensitive to the load of the machine (no parallelism needed).
+func zz2Overlap(op func() bool, other func()) {
+	var wg sync.WaitGroup
+	wg.Add(2)
 	if verifrt.Symbolic() {
+		go func() {
+			defer wg.Done()
+			op()
+		}()
+		go func() {
+			defer wg.Done()
+			other()
+		}()
+		wg.Wait()
 		return
 	}
-	for atomic.LoadInt32(b) == 0 {
-	}
+	prev := runtime.GOMAXPROCS(1)
+	defer runtime.GOMAXPROCS(prev)
+	var started, done atomic.Bool
+	go func() {
+		defer wg.Done()
+		for !started.Load() {
+			runtime.Gosched()
+		}
+		other()
+		done.Store(true)
+	}()
+	go func() {
+		defer wg.Done()
+		started.Store(true)
+		for !done.Load() {
+			if !op() {
+				return
+			}
+		}
+	}()
+	wg.Wait()
 }
 
 // zz2Repeat runs the scenario once under the engine; natively up to STRESS times or for about two seconds.
@@ -108,12 +146,23 @@ func zz2Repeat(scenario func()) {
 
 var zz2ConcOps = []int{zz2Has, zz2Get, zz2GetSize, zz2View, zz2Put, zz2Delete, zz2PutMany01, zz2PutMany10}
 
+var zz2QuickPairs = [][2]int{
+	{zz2Has, zz2Put}, {zz2Has, zz2Delete}, {zz2GetSize, zz2Delete}, {zz2Get, zz2Put},
+	{zz2Put, zz2Delete}, {zz2View, zz2Delete}, {zz2Delete, zz2PutMany01}, {zz2PutMany01, zz2PutMany10},
+}
+
 func zz2Conc(layers int) {
 	zz2Repeat(func() {
-		lo, hi := verifrt.Param("OPLO", 0), verifrt.Param("OPHI", len(zz2ConcOps)-1)
-		ia := zz2Range("opA", lo, hi)
-		ib := zz2Range("opB", ia, len(zz2ConcOps)-1) // unordered pair: the scheduler supplies both orders
-		a, b := zz2ConcOps[ia], zz2ConcOps[ib]
+		var a, b int
+		if verifrt.Param("PAIRS", 0) == 1 {
+			// quick tier: the read/write and write/write pairs that exercise every lock mode combination
+			p := zz2QuickPairs[zz2Range("pair", 0, len(zz2QuickPairs)-1)]
+			a, b = p[0], p[1]
+		} else {
+			ia := zz2Range("opA", 0, len(zz2ConcOps)-1)
+			ib := zz2Range("opB", ia, len(zz2ConcOps)-1) // unordered pair: the scheduler supplies both orders
+			a, b = zz2ConcOps[ia], zz2ConcOps[ib]
+		}
 		w := zz2NewWorld(layers, true, func(bk *zz2Back) Blockstore { return zz2Lower(bk, true, false) }, 64)
 		c := w.pool[w.focus].cid(0)
 		pre := w.back.clone()
@@ -173,37 +222,17 @@ func zz2ConcRebuild(ops []int) {
 		twin := w.back.clone()
 
 		want := zz2Do(twin, w.pool, op, c, w.focus, 0, false)
-		// Under the engine the operation is issued once. Natively the same goroutine issues it REPS times back
-		// to back while Rebuild runs (every operation here is idempotent and the store is otherwise quiet, so
-		// each answer must be `want`); the first deviating answer is kept. A spin barrier starts both together.
-		reps, barrier := 1, int32(1)
-		if !verifrt.Symbolic() {
-			reps, barrier = verifrt.Param("REPS", 400), 0
-		}
+		// Under the engine the operation is issued once, concurrently with Rebuild. Natively (zz2Overlap) the
+		// operation is issued again and again until Rebuild has returned (every operation here is idempotent
+		// and the store is otherwise quiet, so each answer must be `want`); the first deviating answer is kept.
 		var got zz2Res
 		var rerr error
-		var wg sync.WaitGroup
-		wg.Add(2)
-		go func() {
-			defer wg.Done()
-			zz2Spin(&barrier)
-			for r := 0; r < reps; r++ {
-				got = zz2Do(w.top, w.pool, op, c, w.focus, 0, false)
-				if !zz2Same(got, want) {
-					break
-				}
-			}
-		}()
-		go func() {
-			defer wg.Done()
-			zz2Spin(&barrier)
+		zz2Overlap(func() bool {
+			got = zz2Do(w.top, w.pool, op, c, w.focus, 0, false)
+			return zz2Same(got, want)
+		}, func() {
 			rerr = w.bc.Rebuild(ctx)
-		}()
-		if barrier == 0 {
-			time.Sleep(20 * time.Microsecond)
-			atomic.StoreInt32(&barrier, 1)
-		}
-		wg.Wait()
+		})
 
 		if want.errk == 0 && op == zz2Has && want.has {
 			verifrt.Assert("C02.conc-rebuild-stored-block-not-reported-missing", got.errk == 0 && got.has)
